@@ -18,6 +18,7 @@ Conventions
 import Mathlib.Data.Matrix.Block
 import Mathlib.Data.Matrix.Mul
 import Mathlib.Algebra.BigOperators.Group.Finset.Basic
+import Mathlib.Algebra.Field.Defs
 
 namespace MiciVerif.MatricesGrad
 open Matrix
